@@ -341,8 +341,10 @@ def fam_md(rnd, tier):
                             sc.append(act("settrl", md=trl))
                         elif ch == "s" and shape != "unary":
                             sc.append(act("send", size=1))
-                    if rnd.random() < 0.3:
-                        sc.append(act("sendhdr"))
+                    if rnd.random() < 0.45:
+                        # SendHeader with metadata of its own: joined with what SetHeader collected, also under a shared key
+                        sc.append(act("sendhdr", md=rnd.choice([{}, {"x-h": ["sent"], "x-hb-bin": [rnd.choice(bins[1:])]}, {"x-s": ["only-sent"]},
+                                                                {"x-h": ["sent"], "x-s": ["a", "b"]}])))
                     sc.append(act("ret", code=fail, msg=["plain"] if fail else []))
                     c["script"] = sc
                     out.append(c)
